@@ -185,7 +185,9 @@ Variable valid_name : bytes -> bool.
 Variable valid_data : Z -> bytes -> bool.
 Variable str_ok : bytes -> bool.
 Hypothesis hash_inj : forall a b, hash a = hash b -> a = b.
-Set Default Proof Using "Type".
+(* [lia] (zify) mentions every hypothesis of the context in its proof term; clear
+   the section variables first so that lemmas depend only on what they use *)
+Ltac lia := try clear hash_inj; try clear str_ok; try clear valid_data; try clear valid_name; try clear hash; Lia.lia.
 
 Notation nexec := (nexec hash valid_name valid_data str_ok).
 Notation nstep := (nstep hash valid_name valid_data str_ok).
@@ -507,7 +509,7 @@ Lemma add_record_halt c s name typ data s' v ns :
     s' = set_records s (<[soa_key tok := new]>
            (<[(hash tok, hash name, tb, k) := mkR name typ data (Z.of_N k)]> (records s))) /\
     v = VNull /\ ns = [].
-Proof using hash_inj.
+Proof.
   intros Hinv H. unfold NNS.nexec in H. cbv zeta in H.
   destruct (check_record hash valid_name valid_data c s name typ data) as [tok|] eqn:Ecr; [|discriminate H].
   cbn [obind] in H.
@@ -557,7 +559,7 @@ Lemma set_record_halt c s name typ id data s' v ns :
     s' = set_records s (<[soa_key tok := new]>
            (<[(hash tok, hash name, tb, ib) := mkR name typ data id]> (records s))) /\
     v = VNull /\ ns = [].
-Proof using hash_inj.
+Proof.
   intros Hinv H. unfold NNS.nexec in H. cbv zeta in H.
   destruct (check_record hash valid_name valid_data c s name typ data) as [tok|] eqn:Ecr; [|discriminate H].
   cbn [obind] in H.
@@ -726,7 +728,7 @@ Proof.
 Qed.
 
 Lemma nexec_inv c s o s' v ns : rec_inv s -> nexec c s o = Halt (s', v, ns) -> rec_inv s'.
-Proof using hash_inj.
+Proof.
   intros Hinv H. unfold rec_inv.
   destruct (nexec_records_cases _ _ _ _ _ _ H) as [E|[(tok & name & data & E)|[(name & typ & data & ->)|[(name & typ & id & data & ->)|(name & typ & ->)]]]].
   - rewrite E. exact Hinv.
@@ -750,20 +752,20 @@ Proof using hash_inj.
 Qed.
 
 Lemma nstep_inv s co : rec_inv s -> rec_inv (fst (fst (nstep s co))).
-Proof using hash_inj.
+Proof.
   intros Hinv. destruct (nstep_cases hash valid_name valid_data str_ok s co) as [(s' & r & ns & He & ->)|[_ ->]].
   - simpl. eapply nexec_inv; eassumption.
   - exact Hinv.
 Qed.
 
 Lemma nrun_from_inv ops s : rec_inv s -> rec_inv (nrun_from s ops).
-Proof using hash_inj.
+Proof.
   revert s. induction ops as [|co ops IH]; intros s Hinv; [exact Hinv|].
   unfold NNS.nrun_from. simpl. apply IH. apply nstep_inv. exact Hinv.
 Qed.
 
 Lemma nrun_inv ops : rec_inv (nrun ops).
-Proof using hash_inj. apply nrun_from_inv. exact minv_empty. Qed.
+Proof. apply nrun_from_inv. exact minv_empty. Qed.
 
 (** * 6. The specification lists and the step semantics on them *)
 Lemma omap_ext_in {A B} (f g : A -> option B) (l : list A) :
@@ -828,7 +830,7 @@ Lemma add_record_spec c s name typ data s' v ns :
        records s' !! (tk, nk, tb', i) = records s !! (tk, nk, tb', i)) /\
     names s' = names s /\ roots s' = roots s /\ supply s' = supply s /\ balances s' = balances s /\
     acctok s' = acctok s /\ price s' = price s /\ v = VNull /\ ns = [].
-Proof using hash_inj.
+Proof.
   intros Hinv H. assert (Hinv' : rec_inv s') by (eapply nexec_inv; eassumption).
   apply add_record_halt in H as (tok & tb & k & old & new & Hcr & Ht & Htb & Hk & Hk16 & Hk5 & Hnin & Ho & Hr & -> & -> & ->); [|exact Hinv].
   apply check_record_halt in Hcr as (Etok & _).
@@ -881,7 +883,7 @@ Lemma set_record_spec c s name typ id data s' v ns :
     records s' !! (hash tok, hash name, tb, Z.to_N id) = Some (mkR name typ data id) /\
     names s' = names s /\ roots s' = roots s /\ supply s' = supply s /\ balances s' = balances s /\
     acctok s' = acctok s /\ price s' = price s /\ v = VNull /\ ns = [].
-Proof using hash_inj.
+Proof.
   intros Hinv H. assert (Hinv' : rec_inv s') by (eapply nexec_inv; eassumption).
   apply set_record_halt in H as (tok & tb & ib & k & old & new & Hcr & Ht & Htb & Hid & Hk & Hik & Hnd & Ho & Hr & -> & -> & ->); [|exact Hinv].
   apply check_record_halt in Hcr as (Etok & _).
@@ -982,7 +984,7 @@ Lemma mutation_soa_serial c s o s' v ns name :
   (exists typ, o = DeleteRecords name typ) ->
   exists tok old new, tok_of c s name = Halt tok /\
     records s !! soa_key tok = Some old /\ records s' !! soa_key tok = Some new /\ soa_refreshed c old new.
-Proof using hash_inj.
+Proof.
   intros Hinv H [(typ & data & ->)|[(typ & id & data & ->)|(typ & ->)]].
   - apply add_record_halt in H as (tok & tb & k & old & new & Hcr & _ & _ & _ & _ & _ & _ & Ho & Hr & -> & _); [|exact Hinv].
     apply check_record_halt in Hcr as (Etok & _). exists tok, old, new.
@@ -1091,7 +1093,7 @@ Definition rec_vals (name : bytes) (tb : N) (l : list bytes) : list val :=
 Lemma ent_vals_spec s tk name tb :
   rec_inv s ->
   ent_val <$> spec_ents (records s) tk (hash name) tb = rec_vals name tb (spec_recs s tk (hash name) tb).
-Proof using hash_inj.
+Proof.
   intros Hinv. destruct (count_ok_ex s tk (hash name) tb Hinv) as [k Hk].
   apply list_eq. intros j. unfold rec_vals. rewrite list_lookup_fmap, list_lookup_imap.
   destruct (spec_ents_lookup _ _ _ _ _ j Hk) as [_ L2].
@@ -1123,7 +1125,7 @@ Lemma get_all_records_spec c s name s' v ns :
     length (split_dot name) <> 1%nat /\ tok_of c s name = Halt tok /\
     get_frag_ns hash c s tok [] = Halt nst /\
     s' = s /\ ns = [] /\ v = VList (all_vals s (hash tok) name).
-Proof using hash_inj.
+Proof.
   intros Hinv H. unfold NNS.nexec in H. cbv zeta in H.
   inv1 H. inv1 H. injection H as <- <- <-.
   match goal with E : get_all_records _ _ _ _ _ _ = Halt _ |- _ =>
@@ -1165,7 +1167,7 @@ Qed.
 
 Lemma nexec_distinct c s o s' v ns :
   rec_inv s -> distinct_inv s -> nexec c s o = Halt (s', v, ns) -> distinct_inv s'.
-Proof using hash_inj.
+Proof.
   intros Hinv Hd H. assert (Hinv' : rec_inv s') by (eapply nexec_inv; eassumption).
   apply distinct_from_non_soa; [exact Hinv'|]. intros tk nk tb Htb6.
   destruct (nexec_records_cases _ _ _ _ _ _ H) as [E|[(tok & name & data & E)|[(name & typ & data & ->)|[(name & typ & id & data & ->)|(name & typ & ->)]]]].
@@ -1190,7 +1192,7 @@ Lemma distinct_init : distinct_inv ninit.
 Proof. intros tk nk tb. rewrite spec_recs_nil; [constructor|]. intros i. apply lookup_empty. Qed.
 
 Lemma nrun_from_distinct ops s : rec_inv s -> distinct_inv s -> distinct_inv (nrun_from s ops).
-Proof using hash_inj.
+Proof.
   revert s. induction ops as [|co ops IH]; intros s Hinv Hd; [exact Hd|].
   unfold NNS.nrun_from. simpl. apply IH; [apply nstep_inv; exact Hinv|].
   destruct (nstep_cases hash valid_name valid_data str_ok s co) as [(s' & r & ns & He & ->)|[_ ->]].
@@ -1199,7 +1201,7 @@ Proof using hash_inj.
 Qed.
 
 Lemma nrun_distinct ops : distinct_inv (nrun ops).
-Proof using hash_inj. apply nrun_from_distinct; [exact minv_empty|exact distinct_init]. Qed.
+Proof. apply nrun_from_distinct; [exact minv_empty|exact distinct_init]. Qed.
 
 (** * 9. Location: the token of a name *)
 Lemma head_filter_lookup {A} (P : A -> Prop) `{!forall x, Decision (P x)} (l : list A) :
@@ -1254,7 +1256,7 @@ Lemma mutation_location c s o s' v ns name :
   (exists typ, o = DeleteRecords name typ) ->
   exists tok, tok_of c s name = Halt tok /\
     forall tk nk tb i, tk <> hash tok -> records s' !! (tk, nk, tb, i) = records s !! (tk, nk, tb, i).
-Proof using hash_inj.
+Proof.
   intros Hinv H [(typ & data & ->)|[(typ & id & data & ->)|(typ & ->)]].
   - apply add_record_spec in H as (tok & tb & Etok & _ & _ & _ & _ & _ & _ & _ & Hfr & _); [|exact Hinv].
     exists tok. split; [exact Etok|]. intros tk nk tb' i Hne. apply Hfr; [congruence|]. unfold soa_key. congruence.
